@@ -98,7 +98,9 @@ Definition prof_conserves (fnh : list N) (p : prof) : bool :=
 
 Definition prof_root_partial (fnh : list N) (p : prof) : bool :=
   let ss := samples_of fnh p in
-  forallb (fun k => Z.eqb (wrap64 (child_tot k (pf_rows p) 0)) (wrap64 (weight k ss))) (seq 0 (length (pf_st p))).
+  forallb (fun k => Z.eqb (wrap64 (child_tot k (pf_rows p) 0)) (wrap64 (weight k ss)) &&
+                    (* the self values of all stored nodes add up to the same weight *)
+                    Z.eqb (wrap64 (self_sum k (pf_rows p))) (wrap64 (weight k ss))) (seq 0 (length (pf_st p))).
 Definition prof_root_full (fnh : list N) (p : prof) : bool :=
   let ss := samples_of fnh p in
   forallb (fun k => Z.eqb (wrap64 (child_tot k (pf_rows p) 0)) (wrap64 (full_weight k ss))) (seq 0 (length (pf_st p))).
@@ -312,13 +314,15 @@ Definition hyp_summary (ws : list (list int)) : Z * Z :=
   (Z.of_nat (length (filter (fun r => negb (Z.eqb r 0)) rs)), Z.of_nat (length (filter (Z.eqb 1) rs))).
 
 (* everything the check prints, decoding once: (decode errors, mismatches, spec results, hypothesis summary) *)
-Definition all_results (ws : list (list int)) : list Z * list Z * list (Z * Z) * (Z * Z) :=
+Definition all_results (ws : list (list int)) : list Z * list Z * list (Z * Z) * (Z * Z * Z) :=
   let cs := decoded rd_case ws in
   let rs := flat_map (fun c => map (prof_hyp (c_fnh c)) (c_profs c)) cs in
   (decode_errors ws,
    map c_id (filter case_mismatch cs),
    filter (fun x => negb (Z.eqb (snd x) 0)) (map (fun c => (c_id c, case_spec c)) cs),
-   (Z.of_nat (length (filter (fun r => negb (Z.eqb r 0)) rs)), Z.of_nat (length (filter (Z.eqb 1) rs)))).
+   (Z.of_nat (length (filter (fun r => negb (Z.eqb r 0)) rs)), Z.of_nat (length (filter (Z.eqb 1) rs)),
+    (* cases whose OBSERVED merged tree meets the hypotheses of levels_nest (so the nesting oracle applies) *)
+    Z.of_nat (length (filter (fun c => tree_regular (mc_tree (c_merge c)) && negb (is_nil (mc_tree (c_merge c)))) cs)))).
 
 Definition mismatches (ws : list (list int)) : list Z := map c_id (filter case_mismatch (decoded rd_case ws)).
 Definition spec_results (ws : list (list int)) : list (Z * Z) :=
